@@ -143,10 +143,26 @@ func includeFun(t *template.Template, includedNames map[string]int) func(string,
 	}
 }
 
+// tplNestingKey is the entry of the include counters under which nested tpl
+// calls are counted; it cannot be the name of a template.
+const tplNestingKey = "\x00tpl"
+
 // As does 'tpl', so that nested calls to 'tpl' see the templates
 // defined by their enclosing contexts.
 func tplFun(parent *template.Template, includedNames map[string]int, strict bool) func(string, interface{}) (string, error) {
 	return func(tpl string, vals interface{}) (string, error) {
+		// tpl can reach itself through the text it renders (a value that calls
+		// tpl on itself): bound the nesting the same way include does.
+		if v, ok := includedNames[tplNestingKey]; ok {
+			if v > recursionMaxNums {
+				return "", errors.Wrapf(fmt.Errorf("unable to execute template"), "rendering template has too deeply nested tpl calls")
+			}
+			includedNames[tplNestingKey]++
+		} else {
+			includedNames[tplNestingKey] = 1
+		}
+		defer func() { includedNames[tplNestingKey]-- }()
+
 		t, err := parent.Clone()
 		if err != nil {
 			return "", errors.Wrapf(err, "cannot clone template")
